@@ -237,7 +237,9 @@ class CacheFromEnvelope:
         except Exception:
             raise GeneratorError("The provided envelope/dependency envelope is not a valid envelope!")
 
-        if isinstance(envelope, cbor2.CBORTag) and isinstance(envelope.value, dict):
+        if isinstance(envelope, cbor2.CBORTag) and hasattr(envelope.value, "items"):
+            # cbor2>=6 decodes tagged content as immutable containers
+            envelope = cbor2.CBORTag(envelope.tag, dict(envelope.value))
             integrated = [k for k in envelope.value.keys() if isinstance(k, str)]
         else:
             raise GeneratorError("The provided envelope/dependency envelope is not a valid envelope!")
